@@ -2274,6 +2274,182 @@ fn run_suggest(case: &Value) -> Value {
     }
 }
 
+
+// ---------------------------------------------------------------------------
+// validate kind (C15): fault-injected stores and peers; refused / verdict / panic
+
+thread_local! {
+    static LAST_PANIC_LOCATION: std::cell::RefCell<String> = const { std::cell::RefCell::new(String::new()) };
+}
+
+fn run_validate(case: &Value) -> Value {
+    let metadata = build_metadata(&case["graph"]);
+    let cfg = mock_cfg(&metadata);
+    let st = &case["store"];
+    let locked = case["mode"].as_str().unwrap_or("locked") == "locked";
+    // typed parse without validation (serde level)
+    let config: Result<ConfigFile, _> = toml::de::from_str(st["config"].as_str().unwrap());
+    let audits: Result<AuditsFile, _> = toml::de::from_str(st["audits"].as_str().unwrap());
+    let imports: Result<ImportsFile, _> = toml::de::from_str(st["imports"].as_str().unwrap());
+    let (config, audits, imports) = match (config, audits, imports) {
+        (Ok(a), Ok(b), Ok(c)) => (a, b, c),
+        (a, b, c) => {
+            // the real loader must refuse it too (and not crash)
+            let r = catch_unwind(AssertUnwindSafe(|| {
+                Store::mock_acquire(
+                    st["config"].as_str().unwrap(),
+                    st["audits"].as_str().unwrap(),
+                    st["imports"].as_str().unwrap(),
+                    mock_today(),
+                    false,
+                )
+                .is_ok()
+            }));
+            let which = format!(
+                "{}{}{}",
+                if a.is_err() { "config " } else { "" },
+                if b.is_err() { "audits " } else { "" },
+                if c.is_err() { "imports" } else { "" }
+            );
+            return match r {
+                Ok(false) => json!({"status": "ok", "obs": "(outcome refused parse)", "parse_failed": which}),
+                Ok(true) => json!({"status": "ok", "obs": "(outcome proceeds)", "parse_failed": which,
+                                   "note": "typed parse failed but the loader accepted the store"}),
+                Err(p) => json!({"status": "ok", "obs": "(outcome panics)", "panic": panic_message(&p), "parse_failed": which}),
+            };
+        }
+    };
+    // ---- model input
+    let names: Vec<String> = ["safe-to-run".to_owned(), "safe-to-deploy".to_owned()]
+        .into_iter()
+        .chain(audits.criteria.keys().cloned())
+        .collect();
+    let idx = |n: &str| names.iter().position(|x| x == n).map(|i| i as u64).unwrap_or(UNKNOWN);
+    let l = |v: &Vec<crate::serialization::spanned::Spanned<String>>| -> Value {
+        Value::Array(v.iter().map(|c| json!(idx(c))).collect())
+    };
+    let mut refs: Vec<Value> = Vec::new();
+    let mut site = |s: &str, v: Value| refs.push(pair(c(s, vec![]), v));
+    for e in config.exemptions.values().flatten() {
+        site("SExemption", l(&e.criteria));
+    }
+    for (_, _, p) in &config.policy {
+        if let Some(cr) = &p.criteria {
+            site("SPolicy", l(cr));
+        }
+        if let Some(cr) = &p.dev_criteria {
+            site("SPolicyDev", l(cr));
+        }
+        for cr in p.dependency_criteria.values() {
+            site("SPolicyDep", l(cr));
+        }
+    }
+    for e in audits.criteria.values() {
+        site("SImplies", l(&e.implies));
+    }
+    for e in audits.audits.values().flatten() {
+        site("SAudit", l(&e.criteria));
+    }
+    for e in audits.wildcard_audits.values().flatten() {
+        site("SWildcard", l(&e.criteria));
+    }
+    for e in audits.trusted.values().flatten() {
+        site("STrusted", l(&e.criteria));
+    }
+    for imp in config.imports.values() {
+        for cr in imp.criteria_map.values() {
+            site("SCriteriaMap", l(cr));
+        }
+    }
+    for f in imports.audits.values() {
+        for e in f.audits.values().flatten() {
+            site("SLockAudit", l(&e.criteria));
+        }
+        for e in f.wildcard_audits.values().flatten() {
+            site("SLockWildcard", l(&e.criteria));
+        }
+    }
+    let table: Value = Value::Array(audits.criteria.values().map(|e| l(&e.implies)).collect());
+    let shadows = audits.criteria.keys().any(|k| k == "safe-to-run" || k == "safe-to-deploy");
+    let max_end = mock_today() + chrono::Months::new(12);
+    let ends: Vec<Value> = audits
+        .wildcard_audits
+        .values()
+        .flatten()
+        .map(|w| z(day(*w.end)))
+        .collect();
+    let model_in = json!({"locked": locked, "shadows": shadows, "table": table, "max_end": z(day(max_end)),
+                          "ends": ends, "refs": refs});
+
+    // ---- the real thing: canonical files (so that a locked load does not trip over
+    // the generator's formatting), load, go online, resolve, compute updates
+    let prev_hook = std::panic::take_hook();
+    std::panic::set_hook(Box::new(|info| {
+        let loc = info.location().map(|l| format!("{}:{}", l.file(), l.line())).unwrap_or_default();
+        LAST_PANIC_LOCATION.with(|s| *s.borrow_mut() = loc);
+    }));
+    let run = catch_unwind(AssertUnwindSafe(|| -> Result<String, String> {
+        let texts = Store::mock(config.clone(), audits.clone(), imports.clone()).mock_commit();
+        let store = Store::mock_acquire(
+            &texts["config.toml"],
+            &texts["audits.toml"],
+            &texts["imports.lock"],
+            mock_today(),
+            locked,
+        )
+        .map_err(|e| {
+            let mut kinds: Vec<&str> = e
+                .to_string()
+                .lines()
+                .map(|_| "")
+                .collect();
+            kinds.clear();
+            let d = format!("{e:?}");
+            for k in ["InvalidCriteria", "BadWildcardEndDate", "BadFormat", "ImportsLockOutdated"] {
+                if d.contains(k) {
+                    kinds.push(k);
+                }
+            }
+            if kinds.is_empty() {
+                format!("other {}", d.chars().take(200).collect::<String>())
+            } else {
+                kinds.join(" ")
+            }
+        })?;
+        let store = if locked {
+            store
+        } else {
+            let network = build_network(case);
+            let Store { config, audits, imports, .. } = store;
+            Store::mock_online(&cfg, config, audits, imports, &network, true)
+                .map_err(|e| format!("online {}", error_kind(&format!("{e:?}"))))?
+        };
+        let report = resolver::resolve(&metadata, None, &store);
+        let _ = resolver::get_store_updates(&cfg, &store, |_| UpdateMode {
+            search_mode: SearchMode::PreferExemptions,
+            prune_exemptions: false,
+            prune_non_importable_audits: false,
+            prune_imports: false,
+        });
+        Ok(match report.conclusion {
+            Conclusion::Success(_) => "success",
+            Conclusion::FailForViolationConflict(_) => "violation",
+            Conclusion::FailForVet(_) => "failvet",
+        }
+        .to_owned())
+    }));
+    std::panic::set_hook(prev_hook);
+    let (obs, detail) = match run {
+        Ok(Ok(v)) => ("(outcome proceeds)".to_owned(), v),
+        Ok(Err(k)) => (format!("(outcome refused {k})"), k),
+        Err(p) => (
+            "(outcome panics)".to_owned(),
+            format!("{} @ {}", panic_message(&p), LAST_PANIC_LOCATION.with(|s| s.borrow().clone())),
+        ),
+    };
+    json!({"status": "ok", "model_input": model_in, "obs": obs, "detail": detail})
+}
+
 fn panic_message(p: &Box<dyn std::any::Any + Send>) -> String {
     if let Some(s) = p.downcast_ref::<String>() {
         s.clone()
@@ -2295,6 +2471,7 @@ fn run_case(case: &Value) -> Value {
         "audit_as" => run_audit_as(case),
         "aggregate" => run_aggregate(case),
         "suggest" => run_suggest(case),
+        "validate" => run_validate(case),
         other => json!({"status": "harness_error", "error": format!("unknown kind {other}")}),
     }));
     let mut v = match r {
